@@ -74,12 +74,13 @@ func walkOptionMap(fieldDesc protoreflect.FieldDescriptor, mp protoreflect.Map) 
 		Children:  make([]OptionField, 0, mp.Len()),
 	}
 
-	if fieldDesc.MapValue().Kind() == protoreflect.MessageKind {
-		panic("map value is message, not supported")
-	}
-
 	mp.Range(func(key protoreflect.MapKey, val protoreflect.Value) bool {
-		mapVal := walkOptionScalar(fieldDesc.MapValue(), val)
+		var mapVal OptionField
+		if fieldDesc.MapValue().Kind() == protoreflect.MessageKind {
+			mapVal = walkOptionMessage(fieldDesc.MapValue(), val.Message())
+		} else {
+			mapVal = walkOptionScalar(fieldDesc.MapValue(), val)
+		}
 		keyVal := walkOptionScalar(fieldDesc.MapKey(), key.Value())
 		mapVal.Key = "value"
 		keyVal.Key = "key"
